@@ -1012,8 +1012,11 @@ func TestVF_C17(t *testing.T) {
 					}
 				}
 				// an interval above the 60 s cap of the back-off, with back-off disabled: constant means constant
-				if cut <= 2 && (vi+cut)%4 == 0 {
+				// (with back-off the doubling stops at once, the configured interval stays); DTLS 1.3 servers at every
+				// cut, so that the post-handshake flight's timer is among them
+				if (cut <= 2 && (vi+cut)%4 == 0) || (cut <= 4 && tgt == "s" && (v.Cfg.Is13() || v.Cfg.SVer == "dual")) {
 					cases = append(cases, vfC17Case{V: v, Target: tgt, Cut: cut, Interval: 75 * time.Second, Backoff: false, Mode: "silence"})
+					cases = append(cases, vfC17Case{V: v, Target: tgt, Cut: cut, Interval: 75 * time.Second, Backoff: true, Mode: "silence"})
 				}
 				if cut > 0 {
 					cases = append(cases, vfC17Case{V: v, Target: tgt, Cut: cut, Interval: time.Second, Backoff: true, Mode: "restore"})
